@@ -17,7 +17,7 @@ from picomon.ref import pathgrammar as G, pathgeom as PG, shapes as RS
 
 NAME = "might_paint"
 STATE = {"judge": True, "seen": None}
-PROPS = ("fill", "fill-opacity", "fill-rule", "stroke", "stroke-width", "stroke-opacity", "opacity", "display")
+PROPS = ("fill", "fill-opacity", "fill-rule", "stroke", "stroke-width", "stroke-opacity", "opacity", "display", "stroke-linecap")
 
 
 def resolve_props(shape):
@@ -101,6 +101,18 @@ def has_positive_length(cmds):
     return False
 
 
+def has_capped_dot(cmds):
+    """A zero-length subpath that has a drawing command (`M x,y Z`, `M x,y L x,y`): SVG strokes it
+    as a dot when the line cap is round or square."""
+    for sp in PG.interpret(cmds):
+        if sp.implicit:
+            continue
+        drawn = bool(sp.segs) or sp.closed
+        if drawn and all(_seglen(sg) == 0 for sg in sp.segs):
+            return True
+    return False
+
+
 def ground_truth(shape):
     """-> ("paints", why) | ("unknown", why) | ("out_of_domain", why)"""
     p = resolve_props(shape)
@@ -122,6 +134,8 @@ def ground_truth(shape):
         return "nothing", "no visible paint"
     if stroke_visible and has_positive_length(cmds):
         return "paints", "visible stroke on a segment of positive length"
+    if stroke_visible and p.get("stroke-linecap") in ("round", "square") and has_capped_dot(cmds):
+        return "paints", "visible stroke with a round/square cap on a zero-length subpath (a dot)"
     if fill_visible:
         rule = p["fill-rule"] if p["fill-rule"] in ("nonzero", "evenodd") else "nonzero"
         disc = interior_disc(cmds, rule)
@@ -257,7 +271,7 @@ class _Snap:
 
 def _copy_fields(path):
     s = _Snap()
-    for k in ("d", "style", "fill", "fill_rule", "fill_opacity", "stroke", "stroke_width", "stroke_opacity", "opacity", "display"):
+    for k in ("d", "style", "fill", "fill_rule", "fill_opacity", "stroke", "stroke_width", "stroke_opacity", "opacity", "display", "stroke_linecap"):
         setattr(s, k, getattr(path, k))
     s.tag = "path"
     return s
@@ -318,8 +332,13 @@ def judge_remove_empty(before, after_d):
                     return
     if stroke_visible:
         # every subpath with a segment of positive length must survive
-        keep = [s for s in PG.interpret(b) if any(_seglen(sg) > 1e-6 for sg in s.segs)]
-        have = [s for s in PG.interpret(a) if any(_seglen(sg) > 1e-6 for sg in s.segs)]
+        dots = p.get("stroke-linecap") in ("round", "square")
+
+        def strokable(s):
+            return any(_seglen(sg) > 1e-6 for sg in s.segs) or (dots and not s.implicit and (s.closed or s.segs) and all(_seglen(sg) == 0 for sg in s.segs))
+
+        keep = [s for s in PG.interpret(b) if strokable(s)]
+        have = [s for s in PG.interpret(a) if strokable(s)]
         decided += 1
         if len(have) < len(keep):
             events.emit("remove_empty_subpaths", "violation", rule="stroke_lost", sig="remove_empty_subpaths:stroke_lost",
